@@ -61,7 +61,14 @@ func (n *naiveTSO) Commit(revision uint64) {
 	//	panic("committed revision must increase continuously")
 	//}
 
-	atomic.StoreUint64(&n.committedRevision, revision)
+	// never move backwards: on a follower concurrent readers set the revision they fetched from leader,
+	// and one who was delayed must not take the read revision back below what another reader has adopted
+	for {
+		committed := atomic.LoadUint64(&n.committedRevision)
+		if revision <= committed || atomic.CompareAndSwapUint64(&n.committedRevision, committed, revision) {
+			break
+		}
+	}
 	// in case leader transfer, need to update tso and pre tso
 	preTSO := atomic.LoadUint64(&n.dealRevision)
 	if preTSO < revision {
